@@ -41,6 +41,10 @@ func (m *Model) delete() {
 
 func (m *Model) addFund(address types.Address, pubkey *types.Pubkey, candidateID uint32, coin types.CoinID, value *big.Int, moveToCandidateID uint32) {
 	m.lock.Lock()
+	if pubkey != nil {
+		key := *pubkey // callers pass pointers into live candidate records; keep our own copy
+		pubkey = &key
+	}
 	var moveToCandidate []uint32
 	if moveToCandidateID != 0 {
 		moveToCandidate = []uint32{moveToCandidateID}
